@@ -222,7 +222,9 @@ class G:
             if self.draw(st.integers(0, 5)) == 0:
                 # nested power with an even inner exponent: (x**2)**1.5 is defined for negative x too
                 base = ["bin", "**", self.var_leaf(), ["const", "pyint", self.draw(st.sampled_from([2, 2, 4]))]]
-            if self.cfg.general_pow and self.draw(st.integers(0, 3)) == 0:
+            if self.cfg.params and self.env["params"] and self.draw(st.integers(0, 7)) == 0:
+                ex = ["param", self.draw(st.sampled_from([p["name"] for p in self.env["params"]]))]   # x ** p
+            elif self.cfg.general_pow and self.draw(st.integers(0, 3)) == 0:
                 ex = self.S(min(depth - 1, 1))
             else:
                 k = self.draw(st.sampled_from(self.cfg.pow_exps))
@@ -250,6 +252,8 @@ class G:
 
     def matrix_data(self, r, c, symmetric=False):
         vals = [[self.draw(st.sampled_from([0, 1, 2, -1, 0.5, 3])) for _ in range(c)] for _ in range(r)]
+        if not symmetric and r > 1 and self.draw(st.integers(0, 3)) == 0:
+            vals[self.draw(st.integers(0, r - 1))] = [0] * c   # an all-zero row (its column usually is not zero)
         if symmetric:
             for i in range(r):
                 for j in range(i):
